@@ -147,26 +147,44 @@ func runC05(c *Ctx) {
 	// ---------------- R2 ----------------
 	if initRegion != nil {
 		name := load.FuncName(initRegion)
-		isLeaf := func(call ssa.CallInstruction) (string, bool) {
-			f := call.Common().StaticCallee()
+		leafShape := func(f *ssa.Function) string {
 			if f == nil || load.RelPkg(f) != "tdx" || f.Signature.Recv() == nil || f == initRegion {
-				return "", false
+				return ""
 			}
 			// leaf records: methods taking (gpa uint64) or (gpa uint64, data []byte) that extend the digest
 			ps := f.Signature.Params()
 			if ps.Len() == 1 && ps.At(0).Type().String() == "uint64" {
-				return "add", true
+				return "add"
 			}
 			if ps.Len() == 2 && ps.At(0).Type().String() == "uint64" && ps.At(1).Type().String() == "[]byte" {
-				return "extend", true
+				return "extend"
 			}
-			return "", false
+			return ""
+		}
+		// a method of that shape that itself calls record methods (initPage(gpa, page): page-add, then the page's
+		// chunks) is a step of the sequence, not a record: it is summarised
+		composite := map[*ssa.Function]bool{}
+		for _, g := range unexportedRegion(initRegion) {
+			if g == initRegion {
+				continue
+			}
+			if len(callsIn(g, func(call ssa.CallInstruction) bool { return leafShape(call.Common().StaticCallee()) != "" })) > 0 {
+				composite[g] = true
+			}
+		}
+		isLeaf := func(call ssa.CallInstruction) (string, bool) {
+			f := call.Common().StaticCallee()
+			if composite[f] {
+				return "", false
+			}
+			k := leafShape(f)
+			return k, k != ""
 		}
 		const bAdded uint = 0
 		nAdd, nExt := 0, 0
 		var addArg, extArg ssa.Value
 		r := &esp.Rule{Name: "C05.R2"}
-		r.Relevant = func(*ssa.Function) bool { return false }
+		r.Relevant = func(g *ssa.Function) bool { return composite[g] }
 		r.Flag = func(v ssa.Value) (int, bool) {
 			// the measure-bytes flag: a boolean φ / value derived from TDVFAttributes & ExtendMR or MeasureAllRegions
 			if v.Type().String() != "bool" {
@@ -231,6 +249,10 @@ func runC05(c *Ctx) {
 				a, aok := addArg.(*ssa.BinOp)
 				b, bok := extArg.(*ssa.BinOp)
 				same = aok && bok && a.Op == b.Op && a.X == b.X && a.Y == b.Y
+				// the chunk addresses of a page: the page's address plus the offset of the chunk within it
+				if !same && bok && b.Op == token.ADD && (b.X == addArg || b.Y == addArg) {
+					same = true
+				}
 			}
 			c.S.Check(same, "R2", name+":record address", c.pos(initRegion.Pos()), "page-add and extension records carry the same address expression", "page-add and extension records are given different addresses")
 		}
